@@ -215,3 +215,12 @@ Theorem C07_src_model_driver_step_is_translated_copy : forall (walk_ok : bool) (
 Proof. exact model_driver_step_is_translated_copy. Qed.
 Print Assumptions C07_src_model_main_step_is_translated_main.
 Print Assumptions C07_src_model_driver_step_is_translated_copy.
+
+(* ---- what xcp does with what it finds at the mapped destination (DestMatrix.v; every cell compared with the binary
+   on every run) ---- *)
+From XcpModel Require Import DestMatrix.
+From XcpProofs Require Import DestMatrixProofs.
+Theorem C07_only_a_fifo_at_the_destination_can_make_it_wait : forall s d o,
+  dest_outcome s d o = Blocks -> s = SFile /\ d = DSpecial /\ o = ONone.
+Proof. exact blocks_only_file_onto_fifo. Qed.
+Print Assumptions C07_only_a_fifo_at_the_destination_can_make_it_wait.
